@@ -380,6 +380,11 @@ def run_rt(prog, prefix, lateness_menu=None, step_budget=4000):
     except vt.Livelock as e:
         status, detail = 'livelock', str(e)
         alive, pending = {}, {}
+    except vt.ReplayDivergence as e:
+        # the same choice prefix met different choice points: the execution
+        # depends on something besides the program and the schedule
+        status, detail = 'execution-not-a-function-of-schedule', str(e)
+        alive, pending = {}, {}
     finally:
         seams.on_add = None
         if prog.get('recv'):
